@@ -85,7 +85,8 @@ def classify(failure: dict, trace: dict, owner: str, findings: list):
     """Return the id of the open known finding this rejection matches, or None."""
     feats = None
     for kf in findings:
-        if kf.get("status") != "open" or kf["property"] != owner:
+        # C15 runs the whole operation catalogue under non-default options: a finding of any property applies there
+        if kf.get("status") != "open" or (kf["property"] != owner and owner != "C15"):
             continue
         m = kf["match"]
         if m.get("act") and m["act"] != failure["act"]:
